@@ -324,6 +324,8 @@ async def _run(sc: dict, holder: dict | None = None) -> dict:
                 f = reply_frame(c["kind"], (c["zone"] + 7) % 12) or fakes.echo_of(str(make_cmd(c["kind"], (c["zone"] + 7) % 12)))
             elif what == "echo_othergwy":
                 f = str(R.cmds[i]).replace("18:000730", "18:999999")
+            elif what == "null_otherctl":   # another controller's "no such log entry" reply to the gateway
+                f = f"RP --- 01:999999 {GWY} --:------ 0418 022 000000B0000000000000000000007FFFFF7000000000"
             elif what == "reply_otherdst":
                 f = (reply_frame(c["kind"], c["zone"]) or R.echo_txt[i]).replace(GWY, "18:999999")
             else:
